@@ -15,7 +15,7 @@ CLAIMED = {
    note="Whole-output byte identity is NOT carried by contracts: directory traversal order (sorted(iterdir())), the fixed build time, member ordering, the template writer, the search index and the inventory are decided by the bounded native 2-run harness only (fresh interpreters with PYTHONHASHSEED 1 / 2 / 77, directory listings reversed in the child, output written over a previous result; sha256 of every file; 6 (9) projects). Assumed: sorted() is a function of the multiset of its elements; dicts iterate in insertion order.",
    ref='6 C18'),
  'C01': dict(
-   text="Deductive, for the mechanisms that keep a run going: ASTBuilder.parseFile / parseString let no exception of the parser out (SyntaxError, ValueError, RecursionError), report the file against its module and cache the outcome; parseAll / parseDocformat evaluate the metadata variables without letting literal_eval's ValueError/TypeError out (loop invariant); the module scheduler System.process / processModule / getProcessedModule is verified as a state machine under an explicit invariant (the waiting list holds exactly the registered UNPROCESSED modules, each once): none of its five assertions can fail, ValueError from list.remove cannot occur, the processing stack is balanced, each call strictly shrinks the list, and process() terminates (variant) with an empty list; pages.format_signature lets nothing out and reports against the function (or the overload's primary).",
+   text="Deductive, for the mechanisms that keep a run going: ASTBuilder.parseFile / parseString let no exception of the parser out (SyntaxError, ValueError, RecursionError), report the file against its module and cache the outcome; parseAll / parseDocformat evaluate the metadata variables without letting literal_eval's ValueError/TypeError out (loop invariant); the module scheduler System.process / processModule / getProcessedModule is verified as a state machine under an explicit invariant (the waiting list holds exactly the registered UNPROCESSED modules, each once): none of its five assertions can fail, ValueError from list.remove cannot occur, the processing stack is balanced, each call strictly shrinks the list, and process() terminates (variant) with an empty list; pages.format_signature lets nothing out and reports against the function (or the overload's primary); extensions.deprecate.getDeprecated turns any failure of evaluating a deprecation decorator into a message.",
    note="Assumed: the documented exceptions of ast.parse / literal_eval; ASTBuilder.processModuleAST (the whole AST visitor, extensions and re-entrant imports) preserves the scheduler invariant and raises nothing - that is the part the bounded native harness probes (real driver in-process on 106 module texts, 16 trees, random line/token mutations, 13 standard-library modules and mutations of them, docformats rotating; exit status, written files, sibling documented, unparsable file named). Not under contract: the visitor, post-processing, the template writer, flattening, search index, inventory writer. Known finding KF-C01-lone-surrogate. Options other than --docformat are outside the property's quantifier and are not explored (observations: --prepend-package with an import of the fake package, and hiding every object, abort).",
    ref='6 C01'),
  'C08': dict(
@@ -27,8 +27,8 @@ CLAIMED = {
    note="Assumed: System.handleDuplicate's contract (renames the displaced object and re-registers both), dict views. The registry/containment/parent/fullName/module/URL-uniqueness invariants over a whole built system (all ten clauses of the property, after real ASTBuilder runs including re-exports, duplicates, nested duplicates) are decided by the bounded native harness. Known findings KF-C02-summary-page-clash, KF-C02-nested-duplicate-key.",
    ref='6 C02'),
  'C07': dict(
-   text="Deductive: ModuleVistor._handleReExport moves the object exactly when the documented condition holds (as_name is exported by the current module's __all__, the origin resolves it to an object defined in a module, and the origin's own __all__ does not list it), under the name it is imported as, returns True exactly then, reports and returns False when it cannot be resolved, and changes nothing otherwise; _getCurrentModuleExports yields the module's __all__ (nothing inside classes/functions); the effect of the move itself is Documentable.reparent's contract (C02): one object, registered once under the new qualified name, alias left at the old location; Documentable.resolveName returns the registered object of the expanded name and otherwise follows the alias of that *expanded* name through System.find_object (None when that fails).",
-   note="Assumed: resolveName/expandName (name resolution through alias chains is outside the contracts; after the fix resolveName follows the alias of a moved object), System.msg/report only count. 'Both the new name and an import from the defining module lead to that one object', documented-once on the written pages, processing order independence (consumer first / origin first) are decided by the bounded native harness (plain, renamed, star re-exports x analysis order x origin __all__).",
+   text="Deductive: ModuleVistor._handleReExport moves the object exactly when the documented condition holds (as_name is exported by the current module's __all__, the origin resolves it to an object defined in a module, and the origin's own __all__ does not list it), under the name it is imported as, returns True exactly then, reports and returns False when it cannot be resolved, and changes nothing otherwise; _getCurrentModuleExports yields the module's __all__ (nothing inside classes/functions); the effect of the move itself is Documentable.reparent's contract (C02): one object, registered once under the new qualified name, alias left at the old location; Documentable.resolveName returns the registered object of the expanded name and otherwise follows the alias of that *expanded* name through System.find_object (None when that fails); System.find_object itself is verified against an explicit spec (registry entry first; None for a name whose first part is none of our roots; otherwise what the alias in the first root of that name leads to, LookupError exactly when that is nothing; loop invariant over the roots).",
+   note="Assumed: expandName (name expansion through alias chains is outside the contracts), every root is registered under its name (C02), System.msg/report only count. 'Both the new name and an import from the defining module lead to that one object', documented-once on the written pages, processing order independence (consumer first / origin first) are decided by the bounded native harness (plain, renamed, star re-exports x analysis order x origin __all__).",
    ref='6 C07'),
  'C05': dict(
    text="Deductive: the whole of pydoctor/mro.py is under contract and proved for all inputs: Dependency.head/tail, DependencyList.__init__ (fresh pairwise-distinct deques), __contains__, heads, tails, exhausted, remove (pointwise over the abstract view), _merge (result = the C3 merge of its argument lists, ValueError exactly when C3 has no solution; both loops with invariants; remaining-work invariant pre(result, c3_merge(view)) = c3_merge(lists)) and mro (result = the C3 linearisation over a pure base function, recursion by its own contract); on the model side Class.find returns the entry of the first class of the linearisation that defines the name (loop invariant), Inheritable.docsources (a generator, modelled by the sequence it yields) is the object itself followed by the same-named members of the classes after its parent, in linearisation order (remaining-work invariant over the recursive spec picks), and get_docstring takes the first source that has a docstring at all (an empty one meaning undocumented); the 'overrides' note (a region of pages.get_override_info) links the first definition along the linearisation after the class itself.",
@@ -52,14 +52,14 @@ CLAIMED = {
    ref='6 C19'),
  'C14': dict(
    text="Deductive, on two regions of the real body of astbuilder.ModuleVistor._handleFunctionDef that are re-located by marker texts and extracted mechanically on every run: (1) the parameter-list construction (closures get_default/add_arg inlined, three loops with invariants) yields, for every ast.arguments, exactly the parameters of the language reference - positional-only, positional-or-keyword, *vararg, keyword-only, **kwarg, in that order and with those kinds, a default exactly where the source has one and wrapping that source expression, an annotation iff the source has one; (2) the return annotation is omitted iff it is absent or the literal None, the Signature receives that list, overloads append their own signature without touching the primary one.",
-   note="Assumed: ast_args_ok (CPython parser invariants), inspect.Parameter/Signature store what they are given, the value formatters display the expression they wrap (C15), _annotations_from_function and is_none_literal (bounded native harness). The extraction drops the statements of _handleFunctionDef before the first marker (decorators, docstring, kind). Everything from the Signature object to the HTML is external; the bounded native harness reads the displayed text back as Python for every layout of <= 3 (4) parameters.",
+   note="Assumed: ast_args_ok (CPython parser invariants), inspect.Parameter/Signature store what they are given, the value formatters display the expression they wrap (C15), _annotations_from_function and is_none_literal (bounded native harness). The extraction drops the statements of _handleFunctionDef before the first marker (decorators, docstring, kind). Everything from the Signature object to the HTML is external; the bounded native harness reads the displayed text back as Python for every layout of <= 3 (4) parameters, as functions and as methods / static / class methods, incl. overloads and long or regex defaults. Known findings KF-C14-nbsp, KF-C14-one-tuple, KF-C14-float-inf.",
    ref='6 C14'),
  'C15': dict(
    text="Deductive: _OperatorDelimiter.__init__ is verified against the operator-precedence grammar of the language reference for every child operator, parent operator/kind and operand side (whenever the grammar requires parentheses, they are kept: needs_parens => not discard), using astor's precedence table read from the installed package at run time; _ColorizerState.mark/restore are verified as a backup point (restore returns exactly what it trims, nothing is lost).",
    note="Not under contract: per-node rendering, line wrapping/truncation (_output, colorize), tuples, everything rendered through astor.to_source, string/bytes escaping - these are decided by the bounded native read-back oracle only (every operator chain of depth three, 45 forms x 21 wrappers, truncation grid). Known finding KF-C15-one-tuple (one-element tuples lose their comma; pinned by the repository's own test).",
    ref='6 C15'),
  'C16': dict(
-   text="Deductive: the line arithmetic and the accounting are verified hop by hop for all inputs: extract_docstring_linenum (= node line + newlines of the stripped whitespace prefix; loop invariant), extract_docstring, setDocstring, Documentable.report (message = description:base+offset, base chosen by section; counted), Field.report, ParseError.linenum/descr, reportErrors (once per object and section, one message per error, 0-based offsets), System.msg (every negative-threshold message counted, `once` messages once) and driver.main (exit status = the statement's formula over the final counters); 'moving the definition down by k lines moves the reported line by k' is a lemma over the spec.",
+   text="Deductive: the line arithmetic and the accounting are verified hop by hop for all inputs: extract_docstring_linenum (= node line + newlines of the stripped whitespace prefix; loop invariant), extract_docstring, setDocstring, Documentable.description (the object's own source file, not that of the module it was moved to), Documentable.report (message = description:base+offset, base chosen by section; counted), Field.report, ParseError.linenum/descr, reportErrors (once per object and section, one message per error, 0-based offsets), System.msg (every negative-threshold message counted, `once` messages once) and driver.main (exit status = the statement's formula over the final counters); 'moving the definition down by k lines moves the reported line by k' is a lemma over the spec.",
    note="Assumed: the per-construct line numbers produced inside epytext/docutils/napoleon are inputs; inspect.cleandoc, print/flush, Options.from_args, get_system and make are external (make/get_system only ever increment the violation counter). The end-to-end chain (planted problems at known physical lines, real runs, exit statuses) is exercised by the bounded native harness; it found two genuine off-by-one defects (fixed) and one pinned by the repository's doctest (known finding KF-C16-consolidated-field-line).",
    ref='6 C16'),
  'C20': dict(
